@@ -152,10 +152,32 @@ class CoqLock:
         self.f.close()
 
 
+COQPROJECT_HEAD = ("-Q . Aegean\n-arg -w -arg -notation-overridden,-ambiguous-paths,-deprecated-hint-without-locality,"
+                   "-deprecated-instance-without-locality\n")
+
+
+def write_coqproject():
+    """_CoqProject lists every .v under Lib Gen Model Proofs Props Refuted (coqdep orders them)"""
+    files = []
+    for d in ('Lib', 'Gen', 'Model', 'Proofs', 'Props', 'Refuted'):
+        dd = os.path.join(COQ, d)
+        if os.path.isdir(dd):
+            files += [f'{d}/{f}' for f in sorted(os.listdir(dd)) if f.endswith('.v')]
+    text = COQPROJECT_HEAD + '\n'.join(files) + '\n'
+    cp = os.path.join(COQ, '_CoqProject')
+    old = open(cp).read() if os.path.exists(cp) else None
+    if old != text:
+        with open(cp, 'w') as fh:
+            fh.write(text)
+        return True
+    return False
+
+
 def ensure_makefile():
+    changed = write_coqproject()
     mk = os.path.join(COQ, 'Makefile')
     cp = os.path.join(COQ, '_CoqProject')
-    if not os.path.exists(mk) or os.path.getmtime(mk) < os.path.getmtime(cp):
+    if changed or not os.path.exists(mk) or os.path.getmtime(mk) < os.path.getmtime(cp):
         subprocess.run(['coq_makefile', '-f', '_CoqProject', '-o', 'Makefile'], cwd=COQ, check=True,
                        capture_output=True)
 
